@@ -2,6 +2,8 @@ package props
 
 import (
 	"fmt"
+	"os"
+	"path/filepath"
 	"regexp"
 	"strings"
 	"sync"
@@ -135,6 +137,17 @@ func c02RoundTrip(c *mon.Ctx, mkDiff func() jd.Diff, panel []string, renderOpts 
 	if err != nil {
 		c.Violation("rendered diff is rejected by ReadDiffString: "+err.Error(), extra)
 		return false
+	}
+	if c.Index%6 == 0 && c.WorkDir != "" {
+		fn := filepath.Join(c.WorkDir, "d.diff")
+		if os.WriteFile(fn, []byte(t), 0o644) == nil {
+			df, ferr := jd.ReadDiffFile(fn)
+			c.Feature("file_reader_compared")
+			if ferr != nil || hunksEqual(Hunks(d2), Hunks(df)) != "" {
+				c.Violation("ReadDiffFile and ReadDiffString read the same text differently", extra)
+				return false
+			}
+		}
 	}
 	t2 := d2.Render(renderOpts...)
 	if t2 != t {
